@@ -56,6 +56,44 @@ pub fn c12(ctx: &Ctx, subj: &dyn DynSubject, ty: &Ty, rep: &mut Report) {
                 Ok(Err(e)) => return Err(Fail::new(&format!("place-error:{}", err_name(&e)), format!("base residue {}: unexpected error {:?}", r, e)).env(json!({"residue": r}))),
             }
         }
+        // alignment units beyond the residue sweep: the buffer at every multiple of 64 up to twice the largest unit
+        // (a 8192-byte unit on a page boundary that is 4096 modulo 8192, a 256-byte unit at 128 modulo 256, ...)
+        if max_unit > 128 {
+            let span = 2 * max_unit.next_power_of_two();
+            let mut offs: Vec<usize> = (0..span).step_by(64.max(span / 64)).collect();
+            offs.extend([max_unit / 2, max_unit, max_unit + max_unit / 2, 4096 % span, (4096 + max_unit / 2) % span]);
+            offs.sort();
+            offs.dedup();
+            for off in offs {
+                let pl = Placed::new(&bytes, span, off);
+                let base = pl.addr();
+                let ok = aligns.iter().all(|(p, u)| (base + p) % u == 0);
+                log.extra_evals += 1;
+                if !ok {
+                    predicted_fail += 1;
+                    log.extra_nontrivial.push(hash_sub(subj.name(), v, "c12-wide", off as u64, 0));
+                }
+                let env = json!({"offset": off, "span": span});
+                match guard(|| subj.eps(pl.bytes())) {
+                    Err(p) => return Err(Fail::new(&format!("place-panic:{}", panic_class(&p)), format!("buffer at {} modulo {}: deserialize_eps panicked: {}", off, span, p)).env(env)),
+                    Ok(Ok(o)) => {
+                        if !ok {
+                            return Err(Fail::new("place-accepted-misaligned", format!("buffer at {} modulo {} puts a block off its unit (largest unit {}), but deserialize_eps succeeded", off, span, max_unit)).env(env));
+                        }
+                        if o.val != *v {
+                            return Err(Fail::new("place-mismatch", format!("buffer at {} modulo {}: value differs: {}", off, span, o.val.show())).env(env));
+                        }
+                    }
+                    Ok(Err(deser::Error::AlignmentError)) => {
+                        if ok {
+                            return Err(Fail::new("place-refused-aligned", format!("buffer at {} modulo {} aligns every block, but deserialize_eps returned AlignmentError", off, span)).env(env));
+                        }
+                    }
+                    Ok(Err(e)) => return Err(Fail::new(&format!("place-error:{}", err_name(&e)), format!("buffer at {} modulo {}: unexpected error {:?}", off, span, e)).env(env)),
+                }
+            }
+            log.classes.push("wide-unit-placements".into());
+        }
         log.nontrivial = predicted_fail > 0;
         if predicted_fail == 0 {
             log.classes.push("byte-aligned-only".into());
